@@ -38,7 +38,7 @@ func c23Exact(rule, req string) c23tri {
 	case rule == "*":
 		return c23T
 	case rule == "":
-		return c23U // "empty means any" is an implementation choice
+		return c23T // an omitted field means "any" (acl.go actionMatches/resourceMatches, pinned by the repo's own tests)
 	case rule == req:
 		return c23T
 	case strings.EqualFold(rule, req):
@@ -48,10 +48,10 @@ func c23Exact(rule, req string) c23tri {
 }
 
 func c23Name(rule, name string) c23tri {
-	if rule == "*" {
+	if rule == "*" || rule == "" { // omitted name = any (TestNameMatchesEmptyAndWildcard)
 		return c23T
 	}
-	if rule == "" || rule != strings.TrimSpace(rule) {
+	if rule != strings.TrimSpace(rule) {
 		return c23U
 	}
 	stars := strings.Count(rule, "*")
@@ -220,17 +220,17 @@ func c23RuleGen() *rapid.Generator[Rule] {
 	actions := rapid.OneOf(
 		rapid.SampledFrom([]Action{ActionProduce, ActionFetch, ActionGroupRead, ActionGroupWrite, ActionGroupAdmin, ActionAdmin, ActionAny}),
 		rapid.SampledFrom([]Action{ActionProduce, ActionFetch, ActionAny, ActionAny}),
-		rapid.SampledFrom([]Action{"", "PRODUCE", "Fetch"}),
+		rapid.SampledFrom([]Action{"", "", "PRODUCE", "Fetch"}),
 	)
 	resources := rapid.OneOf(
 		rapid.SampledFrom([]Resource{ResourceTopic, ResourceGroup, ResourceCluster, ResourceAny}),
 		rapid.SampledFrom([]Resource{ResourceTopic, ResourceTopic, ResourceAny}),
-		rapid.SampledFrom([]Resource{"", "Topic"}),
+		rapid.SampledFrom([]Resource{"", "", "", "Topic"}),
 	)
 	names := rapid.OneOf(
 		rapid.SampledFrom([]string{"orders", "orders-eu", "ord", "x", "ord*", "orders*", "orders-*", "*", "cluster"}),
 		rapid.SampledFrom([]string{"orders", "ord*", "*"}),
-		rapid.SampledFrom([]string{"a*b", "", " orders ", "*ord", "or**"}),
+		rapid.SampledFrom([]string{"a*b", "", "", " orders ", "*ord", "or**"}),
 	)
 	return rapid.Custom(func(t *rapid.T) Rule {
 		return Rule{Action: actions.Draw(t, "action"), Resource: resources.Draw(t, "resource"), Name: names.Draw(t, "name")}
@@ -516,8 +516,9 @@ func TestVF_C23_Exhaustive(t *testing.T) {
 		actions = append(actions, "", "PRODUCE")
 		resources = append(resources, "")
 	} else {
-		actions = []Action{ActionProduce, ActionFetch, ActionAdmin, ActionAny}
-		resources = []Resource{ResourceTopic, ResourceCluster, ResourceAny}
+		actions = []Action{ActionProduce, ActionFetch, ActionAdmin, ActionAny, ""}
+		resources = []Resource{ResourceTopic, ResourceCluster, ResourceAny, ""}
+		names = append(names, "")
 	}
 	var rules []*Rule
 	rules = append(rules, nil)
